@@ -395,9 +395,9 @@ func (ex *Expect) evalComponent(ni int) {
 			if ex.Attached[Abs(it.Path)] == nil {
 				ex.Attached[Abs(it.Path)] = map[string]string{}
 			}
-			ex.Attached[Abs(it.Path)][n.TagKey] = TagValue(it.Path)
+			ex.Attached[Abs(it.Path)][n.TagKey] = tagValueFor(n, it.Path)
 			nt := copyTags(it.Tags)
-			nt[n.TagKey] = TagValue(it.Path)
+			nt[n.TagKey] = tagValueFor(n, it.Path)
 			it.Tags = nt
 			ex.Tagged = true
 			ex.TagKeys[n.TagKey] = true
